@@ -92,3 +92,18 @@ def parent_table(desc):
 
     rec(desc, -1)
     return parents, children
+
+
+def random_state(bt, qntot, m):
+    """TTNS.random(bt, qntot, m); with a small bond limit and a quantum-number constraint the generator can select bond
+    states that leave no admissible root block (0/0 -> FloatingPointError): that is a limitation of the random generator,
+    not of the evolution, so fall back to truncating a full random state"""
+    try:
+        return TTNS.random(bt, int(qntot), m)
+    except FloatingPointError:
+        ttns = TTNS.random(bt, int(qntot), 256)
+        ttns.compress_config = CompressConfig(CompressCriteria.fixed, max_bonddim=int(m))
+        ttns.canonicalise()
+        ttns.compress()
+        ttns.normalize("ttns_and_coeff")
+        return ttns
